@@ -794,6 +794,10 @@ class BayesianProblem(object):
 
         x_MAP, solver_info = solver.solve()
 
+        # A point at which the objective is not a number is not an estimate (e.g. NaN at the initial point)
+        if not np.all(np.isfinite(func(x_MAP))):
+            raise RuntimeError(f"Optimization failed: the negative log of {density.__class__.__name__} is not finite at the returned point. Solver message: {solver_info.get('message', '')}")
+
         # Add info on solver choice
         solver_info["solver"] = "L-BFGS-B"
 
